@@ -8,6 +8,7 @@ A unit is a template (contracts/verus/<unit>.rs) that is ordinary Verus text plu
     //@ ensures: <expr>
     //@ subst: `<from>` => `<to>`
     //@ proof-before `<statement prefix>`: <proof text on one line>
+    //@ proof-after `<statement prefix>`: <proof text inserted after the end of that statement>
     //@ invariant[<loop ordinal>]: <expr>
     //@ decreases[<loop ordinal>]: <expr>
     //@ strip-vis
@@ -114,6 +115,7 @@ def extract_fn(scratch, kv, lines, report):
     body = s[bo:bc + 1]
     ret = None
     requires, ensures, substs, proofs, invs, decs = [], [], [], [], {}, {}
+    proofs_after = []
     strip_vis = False
     rename = None
     for ln in lines:
@@ -134,6 +136,11 @@ def extract_fn(scratch, kv, lines, report):
             if not m:
                 raise SystemExit("bad proof-before directive: " + t)
             proofs.append((m.group(1), m.group(2)))
+        elif t.startswith("proof-after"):
+            m = re.match(r"proof-after\s*`([^`]*)`\s*:\s*(.*)$", t)
+            if not m:
+                raise SystemExit("bad proof-after directive: " + t)
+            proofs_after.append((m.group(1), m.group(2)))
         elif t.startswith("invariant["):
             m = re.match(r"invariant\[(\d+)\]:\s*(.*)$", t)
             invs.setdefault(int(m.group(1)), []).append(m.group(2))
@@ -173,6 +180,26 @@ def extract_fn(scratch, kv, lines, report):
         if idx < 0 or body.find(prefix, idx + 1) >= 0:
             raise Undecided("extract: proof anchor `%s` not found exactly once in %s" % (prefix, kv["fn"]))
         body = body[:idx] + text + "\n        " + body[idx:]
+    for prefix, text in proofs_after:
+        idx = body.find(prefix)
+        if idx < 0 or body.find(prefix, idx + 1) >= 0:
+            raise Undecided("extract: proof anchor `%s` not found exactly once in %s" % (prefix, kv["fn"]))
+        # end of the statement that contains the anchor: the next `;` at bracket depth 0
+        depth = 0
+        end = None
+        for i, c in rsrc.scan(body, idx):
+            if c in "([{":
+                depth += 1
+            elif c in ")]}":
+                depth -= 1
+                if depth < 0:
+                    break
+            elif c == ";" and depth == 0:
+                end = i + 1
+                break
+        if end is None:
+            raise Undecided("extract: statement after anchor `%s` has no end in %s" % (prefix, kv["fn"]))
+        body = body[:end] + "\n        " + text + body[end:]
     # signature
     sig = re.sub(r"^[ \t]*#\[[^\]]*\]\s*", "", sig)
     if strip_vis:
